@@ -32,6 +32,7 @@ import (
 	"github.com/cloudflare/circl/simd/keccakf1600"
 	"github.com/cloudflare/circl/xof"
 	"github.com/cloudflare/circl/xof/k12"
+	"github.com/cloudflare/circl/zzverif/mldsaref"
 	"github.com/cloudflare/circl/zzverif/vlib"
 )
 
@@ -391,8 +392,22 @@ func kems(rng *rand.Rand, n int, thorough bool) {
 func sigs(rng *rand.Rand, n int) {
 	for _, sch := range signschemes.All() {
 		name := sch.Name()
-		for i := 0; i < n; i++ {
+		// boundary seeds for the lattice schemes: the matrix expansion draws the candidate q (to be rejected) resp. q - 1 (kept)
+		var boundary [][]byte
+		for _, p := range mldsaref.All {
+			if p.Name == name {
+				for _, target := range []int64{mldsaref.Q, mldsaref.Q - 1} {
+					if bs := p.BoundarySeed(vlib.Bytes(rng, 32), target, 40000); bs != nil {
+						boundary = append(boundary, bs)
+					}
+				}
+			}
+		}
+		for i := 0; i < n+len(boundary); i++ {
 			seed := vlib.Bytes(rng, sch.SeedSize())
+			if i >= n {
+				seed = boundary[i-n]
+			}
 			pk, sk := sch.DeriveKey(seed)
 			pkb, _ := pk.MarshalBinary()
 			skb, _ := sk.MarshalBinary()
